@@ -186,5 +186,6 @@ RULES = [
     ("C14.cmp", rule_cmp),
     ("C14.handover", rule_requeue_survives),
     ("C14.parked", lambda c, r: pat.shared(__import__("sa.rules.c16", fromlist=["x"]).rule_pause, "C14.parked", lambda x: "parks-empty-handed" in x["instance"] and "workqueue" not in x["instance"])(c, r)),   # the worker callback must not sit in a private batch of a helper parked for fork
+    ("C14.rl", lambda c, r: pat.shared(__import__("sa.rules.c03", fromlist=["x"]).rule_enq, "C14.rl", lambda x: x["rule"] == "C03.rl" or x["status"] != "pass")(c, r)),   # start_poll hands its worker to a helper through call_rcu(): helper lookup and enqueue stay inside one read-side section, or the worker lands on a freed per-CPU helper and "eventually true" is lost
 ]
 FLOORS = {}
